@@ -157,6 +157,9 @@ def _one(out: Outcome, batch: _Batch, stream: str, fam: str, spec: dict, conf: d
     if exps or cs:
         out.nontrivial((json.dumps(spec, sort_keys=True), json.dumps(conf, sort_keys=True), tuple(tr.actions)))
     vs = timers.mon_timers(tr, case)
+    if tr.end == "runaway":
+        vs.append(Violation("C14/control_loop_spins", "the event loop never became quiescent: the control loop spins at one instant of virtual time "
+                            f"(t={tr.final.get('t')}); timers expected: {[(e.kind, e.step, e.due) for e in exps if e.delivered_t is None]}", case))
     out.violations += vs
     if stream == "norelease" and cs:
         out.violations.append(Violation("C14/unexpected_release", f"the run left memory although idle_timeout is {conf.get('idle_timeout')} and no process stop was scheduled: {[(c['kind'], c['t']) for c in cs]}", case))
